@@ -60,6 +60,8 @@ def run(tier, seed, replay=None):
         for c in corpus_cases("C03"):
             files = cr.files_of_case(c)
             run_case(run, drv, files, c["pl"], c["single"], "corpus")
+        for files, pl, single in cr.corner_cases():
+            run_case(run, drv, files, pl, single, "corner")
         for _ in range(80 if tier == "quick" else 800):
             files, pl, single = cr.make_case(run.rng, tier, single_p=0.3)
             run_case(run, drv, files, pl, single, "random")
